@@ -1,5 +1,647 @@
+(* C17/Proofs.v — lemmas about the sequential model of the exclusivity table. *)
 From OV Require Import Common.Base C17.Model.
+From Coq Require Import ZifyBool ZifyNat ZifyN.
+
+(* ---------- equality tests ---------- *)
+Lemma bytes_eqb_eq a b : bytes_eqb a b = true <-> a = b.
+Proof.
+  revert b; induction a as [|x a IH]; destruct b as [|y b]; simpl; split; intros H;
+    try discriminate; try reflexivity.
+  - apply andb_true_iff in H. destruct H as [H1 H2]. apply N.eqb_eq in H1. apply IH in H2. congruence.
+  - inversion H; subst. rewrite N.eqb_refl. simpl. apply IH. reflexivity.
+Qed.
+Lemma bytes_eqb_refl a : bytes_eqb a a = true.
+Proof. apply bytes_eqb_eq. reflexivity. Qed.
+Lemma bytes_eqb_sym a b : bytes_eqb a b = bytes_eqb b a.
+Proof.
+  destruct (bytes_eqb a b) eqn:E1, (bytes_eqb b a) eqn:E2; auto.
+  - apply bytes_eqb_eq in E1. subst. rewrite bytes_eqb_refl in E2. discriminate.
+  - apply bytes_eqb_eq in E2. subst. rewrite bytes_eqb_refl in E1. discriminate.
+Qed.
+
+Lemma key_eqb_eq a b : key_eqb a b = true <-> a = b.
+Proof.
+  destruct a as [s c m], b as [s' c' m']. unfold key_eqb. simpl.
+  rewrite !andb_true_iff, !N.eqb_eq, bytes_eqb_eq. split.
+  - intros [[? ?] ?]; congruence.
+  - intros H; inversion H; auto.
+Qed.
+Lemma key_eqb_refl k : key_eqb k k = true.
+Proof. apply key_eqb_eq. reflexivity. Qed.
+Lemma key_eqb_neq a b : key_eqb a b = false <-> a <> b.
+Proof.
+  split.
+  - intros H E. subst. rewrite key_eqb_refl in H. discriminate.
+  - intros H. destruct (key_eqb a b) eqn:E; auto. apply key_eqb_eq in E. contradiction.
+Qed.
+Lemma key_eqb_sym a b : key_eqb a b = key_eqb b a.
+Proof.
+  destruct (key_eqb a b) eqn:E1, (key_eqb b a) eqn:E2; auto.
+  - apply key_eqb_eq in E1. subst. rewrite key_eqb_refl in E2. discriminate.
+  - apply key_eqb_eq in E2. subst. rewrite key_eqb_refl in E1. discriminate.
+Qed.
+Lemma key_eq_dec (a b : key) : {a = b} + {a <> b}.
+Proof.
+  destruct (key_eqb a b) eqn:E; [left; apply key_eqb_eq; auto | right; apply key_eqb_neq; auto].
+Qed.
+
+Lemma same_id_sym a b : same_id a b = same_id b a.
+Proof. unfold same_id. rewrite (bytes_eqb_sym (o_proto a)), (bytes_eqb_sym (o_sid a)). reflexivity. Qed.
+Lemma same_id_refl a : same_id a a = true.
+Proof. unfold same_id. rewrite !bytes_eqb_refl. reflexivity. Qed.
+Lemma same_id_trans a b c : same_id a b = true -> same_id b c = true -> same_id a c = true.
+Proof.
+  unfold same_id. rewrite !andb_true_iff, !bytes_eqb_eq. intros [-> ->] [-> ->]. auto.
+Qed.
+(* the Go condition of Release, literally, is the negation of same_id *)
+Lemma release_cond cur ow :
+  negb (bytes_eqb (o_proto cur) (o_proto ow)) || negb (bytes_eqb (o_sid cur) (o_sid ow)) = negb (same_id cur ow).
+Proof. unfold same_id. rewrite negb_andb. reflexivity. Qed.
+
+(* ---------- MakeTupleKey ---------- *)
+Lemma pad6_length m : length (pad6 m) = 6%nat.
+Proof.
+  unfold pad6. rewrite firstn_length, app_length, repeat_length. lia.
+Qed.
+Lemma pad6_exact m : length m = 6%nat -> pad6 m = m.
+Proof.
+  intros H. unfold pad6. rewrite firstn_app, H, Nat.sub_diag.
+  change (firstn 0 (repeat 0%N 6)) with (@nil N). rewrite app_nil_r.
+  rewrite <- H. apply firstn_all.
+Qed.
+
+(* ---------- shardFor ---------- *)
 Lemma shard_for_lt k : (shard_for k < 16)%N.
 Proof.
   unfold shard_for. change 15%N with (N.ones 4). rewrite N.land_ones. apply N.mod_lt. discriminate.
+Qed.
+Lemma shard_idx_lt k : (shard_idx k < num_shards)%nat.
+Proof. unfold shard_idx, num_shards. pose proof (shard_for_lt k). lia. Qed.
+
+Lemma shl32_low x s n : (n < s)%N -> (n < 32)%N -> N.testbit (shl32 x s) n = false.
+Proof.
+  intros H1 H2. unfold shl32. change two32 with (2 ^ 32)%N.
+  rewrite N.mod_pow2_bits_low by exact H2. apply N.shiftl_spec_low. exact H1.
+Qed.
+
+(* only the low nibbles of the C-VLAN and of MAC[3], MAC[5] select the shard *)
+Lemma shard_for_low_bits k :
+  shard_for k = N.land (N.lxor (N.lxor (k_cvlan k) (mb k 3)) (mb k 5)) 15.
+Proof.
+  unfold shard_for, shard_hash. apply N.bits_inj. intros n.
+  rewrite !N.land_spec. destruct (N.ltb_spec n 4) as [Hlt|Hge].
+  - rewrite !N.lxor_spec, !N.lor_spec.
+    rewrite !shl32_low by lia. reflexivity.
+  - change 15%N with (N.ones 4). rewrite N.ones_spec_high by exact Hge.
+    rewrite !andb_false_r. reflexivity.
+Qed.
+
+(* ---------- association lists ---------- *)
+Lemma m_get_del_same k m : m_get k (m_del k m) = None.
+Proof.
+  induction m as [|[k' v] r IH]; simpl; auto.
+  destruct (key_eqb k k') eqn:E; auto. simpl. rewrite E. exact IH.
+Qed.
+Lemma m_get_del_other k k' m : k' <> k -> m_get k' (m_del k m) = m_get k' m.
+Proof.
+  intros Hne. induction m as [|[k2 v] r IH]; simpl; auto.
+  destruct (key_eqb k k2) eqn:E.
+  - apply key_eqb_eq in E. subst k2.
+    assert (key_eqb k' k = false) as -> by (apply key_eqb_neq; auto). exact IH.
+  - simpl. rewrite IH. reflexivity.
+Qed.
+Lemma m_get_set_same k v m : m_get k (m_set k v m) = Some v.
+Proof. unfold m_set. simpl. rewrite key_eqb_refl. reflexivity. Qed.
+Lemma m_get_set_other k k' v m : k' <> k -> m_get k' (m_set k v m) = m_get k' m.
+Proof.
+  intros Hne. unfold m_set. simpl.
+  assert (key_eqb k' k = false) as -> by (apply key_eqb_neq; auto).
+  apply m_get_del_other. exact Hne.
+Qed.
+Lemma in_m_del k k' v m : In (k', v) (m_del k m) -> In (k', v) m /\ k' <> k.
+Proof.
+  induction m as [|[k2 v2] r IH]; simpl; [tauto|].
+  destruct (key_eqb k k2) eqn:E.
+  - intros H. destruct (IH H). auto.
+  - simpl. intros [H|H].
+    + inversion H; subst. split; auto. apply key_eqb_neq in E. congruence.
+    + destruct (IH H). auto.
+Qed.
+Lemma in_m_set k v k' v' m : In (k', v') (m_set k v m) -> (k' = k /\ v' = v) \/ (In (k', v') m /\ k' <> k).
+Proof.
+  unfold m_set. simpl. intros [H|H]; [inversion H; auto | right; eapply in_m_del; eauto].
+Qed.
+Lemma m_del_keys_nodup k m : NoDup (map fst m) -> NoDup (map fst (m_del k m)).
+Proof.
+  induction m as [|[k2 v2] r IH]; simpl; intros H; auto.
+  apply NoDup_cons_iff in H. destruct H as [Hnot Hnd]. destruct (key_eqb k k2); auto. simpl. constructor; auto.
+  intros Hin. apply in_map_iff in Hin. destruct Hin as [[k3 v3] [E Hin]]. simpl in E. subst k3.
+  apply in_m_del in Hin. destruct Hin as [Hin _]. apply Hnot. apply in_map_iff. exists (k2, v3). auto.
+Qed.
+Lemma m_set_keys_nodup k v m : NoDup (map fst m) -> NoDup (map fst (m_set k v m)).
+Proof.
+  intros H. unfold m_set. simpl. constructor; [|apply m_del_keys_nodup; auto].
+  intros Hin. apply in_map_iff in Hin. destruct Hin as [[k3 v3] [E Hin]]. simpl in E. subst k3.
+  apply in_m_del in Hin. destruct Hin as [_ Hne]. congruence.
+Qed.
+Lemma m_get_in k v m : NoDup (map fst m) -> In (k, v) m -> m_get k m = Some v.
+Proof.
+  induction m as [|[k2 v2] r IH]; simpl; intros Hn Hin; [contradiction|].
+  apply NoDup_cons_iff in Hn. destruct Hn as [Hnot Hnd]. destruct Hin as [H|H].
+  - inversion H; subst. rewrite key_eqb_refl. reflexivity.
+  - destruct (key_eqb k k2) eqn:E; [|auto].
+    apply key_eqb_eq in E. subst k2. exfalso. apply Hnot. apply in_map_iff. exists (k, v). auto.
+Qed.
+Lemma m_get_some_in k v m : m_get k m = Some v -> In (k, v) m.
+Proof.
+  induction m as [|[k2 v2] r IH]; simpl; [discriminate|].
+  destruct (key_eqb k k2) eqn:E; [|auto].
+  apply key_eqb_eq in E. subst. intros H; inversion H; auto.
+Qed.
+
+(* ---------- one shard refines the flat specification ---------- *)
+Definition shard_abs (s : shard) : spec := fun k => m_get k s.
+
+Lemma shard_step_ret s o : snd (shard_step s o) = snd (spec_step (shard_abs s) o).
+Proof.
+  destruct o as [k ow|k ow|k ow|k]; unfold shard_abs; simpl.
+  - destruct (m_get k s) as [p|]; [|reflexivity]. fold (same_id p ow). destruct (same_id p ow); reflexivity.
+  - destruct (m_get k s) as [p|]; [|reflexivity]. rewrite release_cond. destruct (same_id p ow); reflexivity.
+  - destruct (m_get k s) as [p|]; reflexivity.
+  - destruct (m_get k s) as [p|]; reflexivity.
+Qed.
+Lemma shard_step_abs s o k' :
+  shard_abs (fst (shard_step s o)) k' = fst (spec_step (shard_abs s) o) k'.
+Proof.
+  destruct o as [k ow|k ow|k ow|k]; unfold shard_abs, spec_set; simpl.
+  - assert (E : fst (match m_get k s with
+                     | Some p => if bytes_eqb (o_proto p) (o_proto ow) && bytes_eqb (o_sid p) (o_sid ow)
+                                 then (m_set k ow s, RNil) else (m_set k ow s, ROwner p)
+                     | None => (m_set k ow s, RNil) end) = m_set k ow s).
+    { destruct (m_get k s); [destruct (_ && _)|]; reflexivity. }
+    rewrite E. unfold spec_set. destruct (key_eqb k' k) eqn:Ek.
+    + apply key_eqb_eq in Ek. subst. apply m_get_set_same.
+    + apply m_get_set_other. apply key_eqb_neq. exact Ek.
+  - destruct (m_get k s) as [p|] eqn:Eg; [|reflexivity]. rewrite release_cond.
+    destruct (same_id p ow); simpl; [|reflexivity].
+    unfold spec_set. destruct (key_eqb k' k) eqn:Ek.
+    + apply key_eqb_eq in Ek. subst. apply m_get_del_same.
+    + apply m_get_del_other. apply key_eqb_neq. exact Ek.
+  - destruct (m_get k s); reflexivity.
+  - destruct (m_get k s); reflexivity.
+Qed.
+Lemma shard_step_read_pure s o : op_is_read o = true -> fst (shard_step s o) = s.
+Proof.
+  destruct o as [k ow|k ow|k ow|k]; simpl; try discriminate; intros _; destruct (m_get k s); reflexivity.
+Qed.
+Lemma shard_step_keys_nodup s o : NoDup (map fst s) -> NoDup (map fst (fst (shard_step s o))).
+Proof.
+  intros H. destruct o as [k ow|k ow|k ow|k]; simpl.
+  - destruct (m_get k s); [destruct (_ && _)|]; simpl; apply (m_set_keys_nodup k ow s H).
+  - destruct (m_get k s); [destruct (_ || _)|]; simpl; auto. apply m_del_keys_nodup; auto.
+  - destruct (m_get k s); auto.
+  - destruct (m_get k s); auto.
+Qed.
+(* the step only ever adds the operation's own key *)
+Lemma shard_step_in s o k v :
+  In (k, v) (fst (shard_step s o)) -> In (k, v) s \/ k = op_key o.
+Proof.
+  destruct o as [k0 ow|k0 ow|k0 ow|k0]; simpl.
+  - assert (E : fst (match m_get k0 s with
+                     | Some p => if bytes_eqb (o_proto p) (o_proto ow) && bytes_eqb (o_sid p) (o_sid ow)
+                                 then (m_set k0 ow s, RNil) else (m_set k0 ow s, ROwner p)
+                     | None => (m_set k0 ow s, RNil) end) = m_set k0 ow s).
+    { destruct (m_get k0 s); [destruct (_ && _)|]; reflexivity. }
+    rewrite E. intros H. apply in_m_set in H. tauto.
+  - destruct (m_get k0 s); [destruct (_ || _)|]; simpl; auto.
+    intros H. apply in_m_del in H. tauto.
+  - destruct (m_get k0 s); auto.
+  - destruct (m_get k0 s); auto.
+Qed.
+
+(* ---------- set_nth ---------- *)
+Lemma set_nth_length {A} i (x : A) l : length (set_nth i x l) = length l.
+Proof. revert i; induction l as [|h t IH]; destruct i; simpl; auto. Qed.
+Lemma nth_set_nth_same {A} i (x d : A) l : (i < length l)%nat -> nth i (set_nth i x l) d = x.
+Proof.
+  revert i; induction l as [|h t IH]; destruct i; simpl; intros H; try lia; auto. apply IH. lia.
+Qed.
+Lemma nth_set_nth_other {A} i j (x d : A) l : i <> j -> nth j (set_nth i x l) d = nth j l d.
+Proof.
+  revert i j; induction l as [|h t IH]; destruct i, j; simpl; intros H; auto; try congruence.
+Qed.
+
+(* ---------- the registry refines the flat specification ---------- *)
+Definition reg_ok (r : registry) : Prop := length r = num_shards.
+
+Lemma new_registry_ok : reg_ok new_registry.
+Proof. reflexivity. Qed.
+Lemma reg_step_ok r o : reg_ok r -> reg_ok (fst (reg_step r o)).
+Proof. unfold reg_ok, reg_step. simpl. rewrite set_nth_length. auto. Qed.
+
+Lemma reg_get_new k : reg_get new_registry k = None.
+Proof.
+  unfold reg_get, new_registry. rewrite nth_repeat. reflexivity.
+Qed.
+
+Lemma reg_step_ret r o : snd (reg_step r o) = snd (spec_step (reg_get r) o).
+Proof.
+  unfold reg_step. simpl. rewrite shard_step_ret.
+  destruct o as [k ow|k ow|k ow|k]; reflexivity.
+Qed.
+
+Lemma spec_step_local s s' o k' : s (op_key o) = s' (op_key o) -> s k' = s' k' ->
+  fst (spec_step s o) k' = fst (spec_step s' o) k'.
+Proof.
+  destruct o as [k ow|k ow|k ow|k]; simpl; intros H1 H2; unfold spec_set; auto.
+  - rewrite H2. reflexivity.
+  - rewrite <- H1. destruct (s k) as [cur|]; [destruct (same_id cur ow)|]; unfold spec_set; rewrite ?H2; auto.
+Qed.
+Lemma spec_step_frame s o k' : k' <> op_key o -> fst (spec_step s o) k' = s k'.
+Proof.
+  intros Hne. destruct o as [k ow|k ow|k ow|k]; simpl in *; unfold spec_set; auto.
+  - assert (key_eqb k' k = false) as -> by (apply key_eqb_neq; auto). reflexivity.
+  - destruct (s k) as [cur|]; [destruct (same_id cur ow)|]; unfold spec_set; auto.
+    assert (key_eqb k' k = false) as -> by (apply key_eqb_neq; auto). reflexivity.
+Qed.
+
+Lemma reg_step_get r o k' : reg_ok r ->
+  reg_get (fst (reg_step r o)) k' = fst (spec_step (reg_get r) o) k'.
+Proof.
+  intros Hok. unfold reg_step. simpl. unfold reg_get at 1.
+  destruct (Nat.eq_dec (shard_idx (op_key o)) (shard_idx k')) as [E|N].
+  - rewrite <- E. rewrite nth_set_nth_same by (rewrite Hok; apply shard_idx_lt).
+    fold (shard_abs (fst (shard_step (nth (shard_idx (op_key o)) r []) o)) k').
+    rewrite shard_step_abs. apply spec_step_local.
+    + reflexivity.
+    + unfold shard_abs, reg_get. rewrite E. reflexivity.
+  - rewrite nth_set_nth_other by exact N.
+    rewrite spec_step_frame; [reflexivity|]. intros ->. apply N. reflexivity.
+Qed.
+
+(* pointwise-equal specification states give equal results and pointwise-equal successors *)
+Lemma spec_step_ext s s' o : (forall k, s k = s' k) ->
+  snd (spec_step s o) = snd (spec_step s' o) /\ forall k, fst (spec_step s o) k = fst (spec_step s' o) k.
+Proof.
+  intros H. destruct o as [k ow|k ow|k ow|k]; simpl; rewrite <- ?(H k); split; auto; intros k2; unfold spec_set.
+  - rewrite H. reflexivity.
+  - destruct (s k) as [cur|]; [destruct (same_id cur ow)|]; unfold spec_set; rewrite ?H; auto.
+Qed.
+
+Lemma reg_run_cons r o rest :
+  reg_run r (o :: rest) =
+  (fst (reg_run (fst (reg_step r o)) rest), snd (reg_step r o) :: snd (reg_run (fst (reg_step r o)) rest)).
+Proof. cbn [reg_run]. destruct (reg_step r o) as [r1 x]. cbn [fst snd]. destruct (reg_run r1 rest). reflexivity. Qed.
+Lemma spec_run_cons s o rest :
+  spec_run s (o :: rest) =
+  (fst (spec_run (fst (spec_step s o)) rest), snd (spec_step s o) :: snd (spec_run (fst (spec_step s o)) rest)).
+Proof. cbn [spec_run]. destruct (spec_step s o) as [r1 x]. cbn [fst snd]. destruct (spec_run r1 rest). reflexivity. Qed.
+
+Lemma reg_run_ok r ops : reg_ok r -> reg_ok (fst (reg_run r ops)).
+Proof.
+  revert r; induction ops as [|o rest IH]; intros r H; [exact H|].
+  rewrite reg_run_cons. cbn [fst snd]. apply IH. apply reg_step_ok. exact H.
+Qed.
+
+Lemma reg_run_refines ops : forall r s, reg_ok r -> (forall k, reg_get r k = s k) ->
+  snd (reg_run r ops) = snd (spec_run s ops) /\
+  forall k, reg_get (fst (reg_run r ops)) k = fst (spec_run s ops) k.
+Proof.
+  induction ops as [|o rest IH]; intros r s Hok Hs; [simpl; auto|].
+  rewrite reg_run_cons, spec_run_cons. cbn [fst snd].
+  assert (Hx : snd (reg_step r o) = snd (spec_step s o)).
+  { rewrite reg_step_ret. apply spec_step_ext. exact Hs. }
+  assert (H1 : forall k, reg_get (fst (reg_step r o)) k = fst (spec_step s o) k).
+  { intros k. rewrite reg_step_get by exact Hok. apply spec_step_ext. exact Hs. }
+  destruct (IH _ _ (reg_step_ok r o Hok) H1) as [A B].
+  rewrite Hx, A. auto.
+Qed.
+
+Lemma refines_spec ops :
+  snd (reg_run new_registry ops) = snd (spec_run spec_empty ops) /\
+  forall k, reg_get (fst (reg_run new_registry ops)) k = fst (spec_run spec_empty ops) k.
+Proof. apply reg_run_refines; [apply new_registry_ok | apply reg_get_new]. Qed.
+
+(* ---------- representation invariant: each tuple stored at most once, in its shard ---------- *)
+Definition reg_wf (r : registry) : Prop :=
+  reg_ok r /\
+  forall i, NoDup (map fst (nth i r [])) /\ forall k v, In (k, v) (nth i r []) -> shard_idx k = i.
+
+Lemma new_registry_wf : reg_wf new_registry.
+Proof.
+  split; [reflexivity|]. intros i. unfold new_registry. rewrite nth_repeat.
+  simpl. split; [constructor | tauto].
+Qed.
+Lemma reg_step_wf r o : reg_wf r -> reg_wf (fst (reg_step r o)).
+Proof.
+  intros [Hok Hsh]. split; [apply reg_step_ok; exact Hok|].
+  intros i. unfold reg_step. simpl.
+  destruct (Nat.eq_dec (shard_idx (op_key o)) i) as [E|N].
+  - subst i. rewrite nth_set_nth_same by (rewrite Hok; apply shard_idx_lt).
+    destruct (Hsh (shard_idx (op_key o))) as [Hn Hin]. split.
+    + apply shard_step_keys_nodup. exact Hn.
+    + intros k v H. apply shard_step_in in H. destruct H as [H|H]; [eauto | subst; reflexivity].
+  - rewrite nth_set_nth_other by exact N. apply Hsh.
+Qed.
+Lemma reg_run_wf r ops : reg_wf r -> reg_wf (fst (reg_run r ops)).
+Proof.
+  revert r; induction ops as [|o rest IH]; intros r H; [exact H|].
+  rewrite reg_run_cons. cbn [fst snd]. apply IH. apply reg_step_wf. exact H.
+Qed.
+
+Lemma stored_once r : reg_wf r ->
+  forall k i j v w, In (k, v) (nth i r []) -> In (k, w) (nth j r []) ->
+                    i = j /\ v = w /\ reg_get r k = Some v.
+Proof.
+  intros [Hok Hsh] k i j v w Hi Hj.
+  destruct (Hsh i) as [Hni Hii]. destruct (Hsh j) as [Hnj Hij].
+  pose proof (Hii _ _ Hi) as Ei. pose proof (Hij _ _ Hj) as Ej.
+  assert (Eij : i = j) by congruence. split; [exact Eij|].
+  rewrite <- Eij in Hj. clear Eij Ej Hij Hnj j.
+  pose proof (m_get_in _ _ _ Hni Hi) as G1. pose proof (m_get_in _ _ _ Hni Hj) as G2.
+  split; [congruence|]. unfold reg_get. rewrite Ei. exact G1.
+Qed.
+
+(* ---------- observations ---------- *)
+Definition is_owner (r : registry) (k : key) (o : owner) : bool :=
+  match snd (reg_step r (OIsOwner k o)) with RBool b => b | _ => false end.
+Definition lookup (r : registry) (k : key) : option owner :=
+  match snd (reg_step r (OLookup k)) with ROwner o => Some o | _ => None end.
+Definition claim (r : registry) (k : key) (o : owner) : registry * option owner :=
+  (fst (reg_step r (OClaim k o)),
+   match snd (reg_step r (OClaim k o)) with ROwner p => Some p | _ => None end).
+Definition release (r : registry) (k : key) (o : owner) : registry := fst (reg_step r (ORelease k o)).
+
+Lemma lookup_get r k : lookup r k = reg_get r k.
+Proof. unfold lookup. rewrite reg_step_ret. simpl. destruct (reg_get r k); reflexivity. Qed.
+Lemma is_owner_get r k o :
+  is_owner r k o = match reg_get r k with Some cur => same_id cur o | None => false end.
+Proof. unfold is_owner. rewrite reg_step_ret. reflexivity. Qed.
+Lemma claim_ret r k o :
+  snd (claim r k o) = match reg_get r k with
+                      | Some p => if same_id p o then None else Some p
+                      | None => None end.
+Proof.
+  unfold claim. cbn [fst snd]. rewrite reg_step_ret. simpl.
+  destruct (reg_get r k) as [p|]; [destruct (same_id p o)|]; reflexivity.
+Qed.
+Lemma claim_get r k o k' : reg_ok r ->
+  reg_get (fst (claim r k o)) k' = if key_eqb k' k then Some o else reg_get r k'.
+Proof. intros H. unfold claim. cbn [fst snd]. rewrite reg_step_get by exact H. reflexivity. Qed.
+Lemma release_get r k o k' : reg_ok r ->
+  reg_get (release r k o) k' =
+  if key_eqb k' k && is_owner r k o then None else reg_get r k'.
+Proof.
+  intros H. unfold release. rewrite reg_step_get by exact H. rewrite is_owner_get. simpl.
+  destruct (reg_get r k) as [cur|] eqn:E.
+  - destruct (same_id cur o); unfold spec_set.
+    + destruct (key_eqb k' k); reflexivity.
+    + rewrite andb_false_r. reflexivity.
+  - rewrite andb_false_r. reflexivity.
+Qed.
+Lemma read_ops_keep_state r o : reg_ok r -> op_is_read o = true -> forall k, reg_get (fst (reg_step r o)) k = reg_get r k.
+Proof.
+  intros H Hr k. rewrite reg_step_get by exact H. destruct o; simpl in *; try discriminate; reflexivity.
+Qed.
+
+(* ---------- single owner ---------- *)
+Lemma single_owner_any r k o1 o2 :
+  is_owner r k o1 = true -> is_owner r k o2 = true -> same_id o1 o2 = true.
+Proof.
+  rewrite !is_owner_get. destruct (reg_get r k) as [cur|]; [|discriminate].
+  intros H1 H2. rewrite same_id_sym in H1. eapply same_id_trans; eauto.
+Qed.
+
+Lemma single_owner ops :
+  let r := fst (reg_run new_registry ops) in
+  (forall k i j v w, In (k, v) (nth i r []) -> In (k, w) (nth j r []) -> i = j /\ v = w /\ lookup r k = Some v) /\
+  (forall k o1 o2, is_owner r k o1 = true -> is_owner r k o2 = true -> same_id o1 o2 = true) /\
+  (forall k o, is_owner r k o = true <-> exists cur, lookup r k = Some cur /\ same_id cur o = true).
+Proof.
+  intros r. split; [|split].
+  - intros k i j v w Hi Hj. rewrite lookup_get.
+    eapply stored_once; eauto. apply reg_run_wf. apply new_registry_wf.
+  - intros k o1 o2. apply single_owner_any.
+  - intros k o. rewrite is_owner_get, lookup_get. destruct (reg_get r k) as [cur|].
+    + split; [intros H; exists cur; auto | intros [c [E H]]; inversion E; subst; auto].
+    + split; [discriminate | intros [c [E _]]; discriminate].
+Qed.
+
+(* ---------- displaced owner reported exactly once ---------- *)
+Definition claim_by (k : key) (p : owner) (o : op) : bool :=
+  match o with OClaim k' o' => key_eqb k' k && same_id o' p | _ => false end.
+Definition reports (k : key) (p : owner) (o : op) (x : ret) : bool :=
+  match o, x with OClaim k' _, ROwner q => key_eqb k' k && same_id q p | _, _ => false end.
+
+Definition not_owner (r : registry) (k : key) (p : owner) : Prop :=
+  forall cur, reg_get r k = Some cur -> same_id cur p = false.
+
+Lemma not_owner_step r o k p : reg_ok r -> not_owner r k p -> claim_by k p o = false ->
+  not_owner (fst (reg_step r o)) k p /\ reports k p o (snd (reg_step r o)) = false.
+Proof.
+  intros Hok Hn Hc. split.
+  - intros cur. rewrite reg_step_get by exact Hok.
+    destruct o as [k0 ow|k0 ow|k0 ow|k0]; simpl in *; unfold spec_set.
+    + destruct (key_eqb k k0) eqn:Ek; [|apply Hn].
+      intros H; inversion H; subst. apply key_eqb_eq in Ek. subst k0.
+      rewrite key_eqb_refl in Hc. simpl in Hc. exact Hc.
+    + destruct (reg_get r k0) as [c0|]; [|apply Hn].
+      destruct (same_id c0 ow); [|apply Hn]. unfold spec_set.
+      destruct (key_eqb k k0); [discriminate | apply Hn].
+    + apply Hn.
+    + apply Hn.
+  - rewrite reg_step_ret. destruct o as [k0 ow|k0 ow|k0 ow|k0]; simpl; auto.
+    + destruct (reg_get r k0) as [q|] eqn:Eq; [|reflexivity].
+      destruct (same_id q ow); [reflexivity|]. simpl.
+      destruct (key_eqb k0 k) eqn:Ek; [|reflexivity]. apply key_eqb_eq in Ek. subst k0.
+      simpl. apply Hn. exact Eq.
+Qed.
+
+Lemma not_owner_run ops : forall r k p, reg_ok r -> not_owner r k p ->
+  forallb (fun o => negb (claim_by k p o)) ops = true ->
+  forallb (fun ox => negb (reports k p (fst ox) (snd ox))) (combine ops (snd (reg_run r ops))) = true.
+Proof.
+  induction ops as [|o rest IH]; intros r k p Hok Hn Hc; [reflexivity|].
+  cbn [forallb] in Hc. apply andb_true_iff in Hc. destruct Hc as [Hc1 Hc2]. apply negb_true_iff in Hc1.
+  destruct (not_owner_step r o k p Hok Hn Hc1) as [Hn1 Hr1].
+  rewrite reg_run_cons. cbn [snd combine forallb fst]. rewrite Hr1. cbn [negb andb].
+  apply IH; auto. apply reg_step_ok; auto.
+Qed.
+
+Lemma displaced_reported_once pre k o p post :
+  let r1 := fst (reg_run new_registry pre) in
+  let r2 := fst (reg_step r1 (OClaim k o)) in
+  snd (reg_step r1 (OClaim k o)) = ROwner p ->
+  lookup r1 k = Some p /\ same_id p o = false /\
+  lookup r2 k = Some o /\ is_owner r2 k p = false /\
+  (forallb (fun x => negb (claim_by k p x)) post = true ->
+   forallb (fun ox => negb (reports k p (fst ox) (snd ox))) (combine post (snd (reg_run r2 post))) = true).
+Proof.
+  intros r1 r2 H.
+  assert (Hok1 : reg_ok r1) by (apply reg_run_ok; apply new_registry_ok).
+  assert (Hok2 : reg_ok r2) by (apply reg_step_ok; exact Hok1).
+  rewrite reg_step_ret in H. simpl in H.
+  destruct (reg_get r1 k) as [q|] eqn:Eq; [|discriminate].
+  destruct (same_id q o) eqn:Es; [discriminate|]. inversion H; subst q.
+  assert (G2 : reg_get r2 k = Some o).
+  { unfold r2. rewrite reg_step_get by exact Hok1. simpl. unfold spec_set. rewrite key_eqb_refl. reflexivity. }
+  assert (Hno : not_owner r2 k p).
+  { intros cur E. rewrite G2 in E. inversion E; subst. rewrite same_id_sym. exact Es. }
+  rewrite !lookup_get, is_owner_get, G2, Eq.
+  repeat split; auto.
+  intros Hc. apply not_owner_run; auto.
+Qed.
+
+(* a claim reports the previous owner if and only if there was one with another identity *)
+Lemma claim_reports_iff r k o p :
+  snd (reg_step r (OClaim k o)) = ROwner p <-> (lookup r k = Some p /\ same_id p o = false).
+Proof.
+  rewrite reg_step_ret, lookup_get. simpl. destruct (reg_get r k) as [q|].
+  - destruct (same_id q o) eqn:E; split.
+    + discriminate.
+    + intros [H1 H2]. inversion H1; subst. congruence.
+    + intros H; inversion H; subst. auto.
+    + intros [H1 H2]. inversion H1; subst. reflexivity.
+  - split; [discriminate | intros [H _]; discriminate].
+Qed.
+
+(* ---------- tenure accounting: every tenure is ended exactly once ---------- *)
+(* per key: tenures started = tenures ended by a displacement report + tenures ended by an
+   effective release + (1 if the tuple is owned now) *)
+Fixpoint tenure_counts (r : registry) (k : key) (ops : list op) : (nat * nat * nat) * registry :=
+  match ops with
+  | [] => ((0, 0, 0)%nat, r)
+  | o :: rest =>
+      let started := match o with
+                     | OClaim k' ow => if key_eqb k' k then
+                                         match lookup r k with
+                                         | Some cur => if same_id cur ow then 0 else 1
+                                         | None => 1 end
+                                       else 0
+                     | _ => 0 end%nat in
+      let reported := match o, snd (reg_step r o) with
+                      | OClaim k' _, ROwner _ => if key_eqb k' k then 1 else 0
+                      | _, _ => 0 end%nat in
+      let released := match o with
+                      | ORelease k' ow => if key_eqb k' k && is_owner r k ow then 1 else 0
+                      | _ => 0 end%nat in
+      let '((s, p, d), r') := tenure_counts (fst (reg_step r o)) k rest in
+      ((started + s, reported + p, released + d)%nat, r')
+  end.
+Definition owned_now (r : registry) (k : key) : nat := match lookup r k with Some _ => 1 | None => 0 end.
+
+Lemma tenure_conservation ops : forall r k, reg_ok r ->
+  let '((s, p, d), r') := tenure_counts r k ops in
+  r' = fst (reg_run r ops) /\ (owned_now r k + s = p + d + owned_now r' k)%nat.
+Proof.
+  induction ops as [|o rest IH]; intros r k Hok; cbn [tenure_counts reg_run].
+  - split; [reflexivity | lia].
+  - pose proof (reg_step_ok r o Hok) as Hok1.
+    specialize (IH (fst (reg_step r o)) k Hok1).
+    destruct (tenure_counts (fst (reg_step r o)) k rest) as [[[s p] d] r'] eqn:Et.
+    destruct IH as [IH1 IH2]. split.
+    + destruct (reg_step r o) as [r1 x]. simpl in *. destruct (reg_run r1 rest). simpl in *. exact IH1.
+    + assert (Hstep : (owned_now r k +
+                 match o with
+                 | OClaim k' ow => if key_eqb k' k then match lookup r k with
+                                     | Some cur => if same_id cur ow then 0 else 1 | None => 1 end else 0
+                 | _ => 0 end =
+                 match o, snd (reg_step r o) with
+                 | OClaim k' _, ROwner _ => if key_eqb k' k then 1 else 0 | _, _ => 0 end +
+                 match o with ORelease k' ow => if key_eqb k' k && is_owner r k ow then 1 else 0 | _ => 0 end +
+                 owned_now (fst (reg_step r o)) k)%nat).
+      { unfold owned_now.
+        destruct o as [k0 ow|k0 ow|k0 ow|k0];
+          rewrite ?lookup_get, ?is_owner_get, ?reg_step_ret, ?reg_step_get by exact Hok;
+          simpl; unfold spec_set.
+        - rewrite (key_eqb_sym k k0).
+          destruct (key_eqb k0 k) eqn:Ek.
+          + apply key_eqb_eq in Ek. subst k0.
+            destruct (reg_get r k) as [cur|]; [destruct (same_id cur ow)|]; simpl; lia.
+          + destruct (reg_get r k0) as [c0|]; [destruct (same_id c0 ow)|]; simpl;
+              destruct (reg_get r k); lia.
+        - destruct (key_eqb k0 k) eqn:Ek.
+          + apply key_eqb_eq in Ek. subst k0.
+            destruct (reg_get r k) as [cur|] eqn:Eg; [destruct (same_id cur ow)|]; simpl; unfold spec_set;
+              rewrite ?key_eqb_refl, ?Eg; simpl; lia.
+          + simpl. destruct (reg_get r k0) as [c0|]; [destruct (same_id c0 ow)|]; unfold spec_set;
+              rewrite ?(key_eqb_sym k k0), ?Ek; destruct (reg_get r k); lia.
+        - destruct (reg_get r k); lia.
+        - destruct (reg_get r k0); destruct (reg_get r k); lia. }
+      destruct o; lia.
+Qed.
+
+(* ---------- stale release ---------- *)
+Lemma stale_release_harmless ops k o :
+  let r := fst (reg_run new_registry ops) in
+  is_owner r k o = false -> forall k', lookup (release r k o) k' = lookup r k'.
+Proof.
+  intros r H k'. rewrite !lookup_get, release_get by (apply reg_run_ok; apply new_registry_ok).
+  rewrite H, andb_false_r. reflexivity.
+Qed.
+Lemma release_by_owner ops k o :
+  let r := fst (reg_run new_registry ops) in
+  is_owner r k o = true ->
+  lookup (release r k o) k = None /\ forall k', k' <> k -> lookup (release r k o) k' = lookup r k'.
+Proof.
+  intros r H. split; [|intros k' Hne];
+    rewrite !lookup_get, release_get by (apply reg_run_ok; apply new_registry_ok); rewrite H.
+  - rewrite key_eqb_refl. reflexivity.
+  - assert (key_eqb k' k = false) as -> by (apply key_eqb_neq; auto). reflexivity.
+Qed.
+Lemma release_only_own_key r k o k' : reg_ok r -> k' <> k -> lookup (release r k o) k' = lookup r k'.
+Proof.
+  intros Hok Hne. rewrite !lookup_get, release_get by exact Hok.
+  assert (key_eqb k' k = false) as -> by (apply key_eqb_neq; auto). reflexivity.
+Qed.
+(* the displaced session's late release leaves the displacing session in place *)
+Lemma displaced_release_keeps_new_owner pre k o p :
+  let r1 := fst (reg_run new_registry pre) in
+  let r2 := fst (reg_step r1 (OClaim k o)) in
+  snd (reg_step r1 (OClaim k o)) = ROwner p ->
+  forall p', same_id p' p = true -> lookup (release r2 k p') k = Some o.
+Proof.
+  intros r1 r2 H p' Hp.
+  destruct (displaced_reported_once pre k o p [] H) as [_ [Hs [L2 [Hi _]]]].
+  fold r1 in L2, Hi. fold r2 in L2, Hi.
+  assert (Hok2 : reg_ok r2) by (apply reg_step_ok; apply reg_run_ok; apply new_registry_ok).
+  rewrite lookup_get, release_get by exact Hok2. rewrite key_eqb_refl. simpl.
+  assert (is_owner r2 k p' = false) as ->.
+  { assert (G2 : reg_get r2 k = Some o) by (rewrite <- lookup_get; exact L2).
+    rewrite is_owner_get in Hi |- *. rewrite G2 in Hi |- *.
+    destruct (same_id o p') eqn:E; [|reflexivity].
+    rewrite <- Hi. symmetry. eapply same_id_trans; eauto. }
+  rewrite <- lookup_get. exact L2.
+Qed.
+
+(* ---------- callers: eviction events ---------- *)
+Lemma component_claim_events self r k sid :
+  snd (component_claim self r k sid) =
+  match lookup r k with
+  | Some prev => if bytes_eqb (o_proto prev) self then [] else [o_sid prev]
+  | None => []
+  end.
+Proof.
+  unfold component_claim.
+  pose proof (reg_step_ret r (OClaim k (mkOwner self sid k))) as Hr.
+  destruct (reg_step r (OClaim k (mkOwner self sid k))) as [r' res]. cbn [snd] in *. subst res.
+  rewrite lookup_get. simpl. destruct (reg_get r k) as [prev|]; [|reflexivity].
+  unfold same_id. simpl. destruct (bytes_eqb (o_proto prev) self) eqn:Ep; simpl.
+  - destruct (bytes_eqb (o_sid prev) sid); simpl; [reflexivity|]. rewrite Ep. reflexivity.
+  - rewrite Ep. reflexivity.
+Qed.
+Lemma component_claim_state self r k sid :
+  fst (component_claim self r k sid) = fst (reg_step r (OClaim k (mkOwner self sid k))).
+Proof.
+  unfold component_claim. destruct (reg_step r (OClaim k (mkOwner self sid k))). reflexivity.
+Qed.
+
+Lemma tenure_conservation_new ops k :
+  let '((s, p, d), r') := tenure_counts new_registry k ops in
+  r' = fst (reg_run new_registry ops) /\ (s = p + d + owned_now r' k)%nat.
+Proof.
+  pose proof (tenure_conservation ops new_registry k new_registry_ok) as H.
+  destruct (tenure_counts new_registry k ops) as [[[s p] d] r'].
+  destruct H as [H1 H2]. split; [exact H1|].
+  unfold owned_now in H2 at 1. rewrite lookup_get, reg_get_new in H2. exact H2.
 Qed.
